@@ -172,6 +172,12 @@ func (p *Parser) CreateBuilder() *builder.FunctionBuilder {
 func (p *Parser) GenerateBaseCode() (code string, err error) {
 	util.RemoveMatchComments(p.file, reGoBuildGen)
 
+	type markerPos struct {
+		pos    token.Pos
+		marker string
+	}
+	var markers []markerPos
+
 	// Remove doc comment of the interface.
 	// And also find the range pos of the interface in the code.
 	for _, entry := range p.intfEntries {
@@ -200,9 +206,16 @@ func (p *Parser) GenerateBaseCode() (code string, err error) {
 			}
 		}
 
-		// Insert markers.
-		util.InsertComment(p.file, entry.marker, minPos)
-		util.InsertComment(p.file, entry.marker, maxPos)
+		markers = append(markers, markerPos{minPos, entry.marker}, markerPos{maxPos, entry.marker})
+	}
+
+	// Insert markers from the last position to the first. An inserted marker comment spans
+	// len(marker) bytes from its position on, so a marker inserted afterwards at a slightly
+	// larger position (the closing brace of a short interface, or the opening brace of an
+	// interface that follows closely) would be merged into its comment group.
+	sort.Slice(markers, func(i, j int) bool { return markers[i].pos > markers[j].pos })
+	for _, m := range markers {
+		util.InsertComment(p.file, m.marker, m.pos)
 	}
 
 	var buf bytes.Buffer
